@@ -67,6 +67,10 @@ structure S where
   cu : CU := Tbl.empty
   cuLru : List String := []
   cuCap : Nat := 1
+  /-- the storage: one filter per list identifier (`Store`), with gcache's LRU order per list -/
+  st : List (String × RL Key String String) := []
+  stLru : List (String × List Key) := []
+  stCap : Nat := 1
   /-- the synchronisation pipeline; its custom-filter cache is `cu` (with `cuLru`, `cuCap`) -/
   sy : Sync := Sync.init
 
@@ -137,6 +141,35 @@ def rlQuery (s : S) (k : Key) (client : String) : S × String :=
       let r := rl1.step id (.query k client)
       ({ s with rl := r.1, rlLru := touch lru1 k }, r.2.getD "?")
 
+/-- The component of the storage for list `l` (`Store` is a function of the list identifier; the
+driver keeps the components it has touched in an association list, evaluated eagerly). -/
+def stGet (s : S) (l : String) : RL Key String String :=
+  (s.st.lookup l).getD { engine := fun _ _ => "none", cache := Tbl.empty, enabled := true }
+
+def stSet (s : S) (l : String) (x : RL Key String String) : List (String × RL Key String String) :=
+  (l, x) :: s.st.filter (fun p => p.1 != l)
+
+/-- The same for one list of the storage: `Store.step` changes the component of the addressed list
+by `RL.step` and nothing else, so every driver step is a sequence of `Store.step`s for list `l`. -/
+def stQuery (s : S) (l : String) (k : Key) (client : String) : S × String :=
+  let lru := (s.stLru.lookup l).getD []
+  let setLru (x : List Key) : List (String × List Key) := (l, x) :: s.stLru.filter (fun p => p.1 != l)
+  let rl := stGet s l
+  match rl.lookup id k with
+  | some _ =>
+    let r := rl.step id (.query k client)
+    ({ s with st := stSet s l r.1, stLru := setLru (touch lru k) }, r.2.getD "?")
+  | none =>
+    let v := victim lru s.stCap k
+    let rl1 := match v with
+      | some old => (rl.step id (.evict old)).1
+      | none => rl
+    let lru1 := match v with
+      | some old => lru.erase old
+      | none => lru
+    let r := rl1.step id (.query k client)
+    ({ s with st := stSet s l r.1, stLru := setLru (touch lru1 k) }, r.2.getD "?")
+
 def cuGet (s : S) (c : Conf) : S × Option (List String) :=
   if !c.enabled || c.rules.isEmpty then (s, none)
   else
@@ -183,6 +216,15 @@ def step (s : S) : List String → S × String
     -- `safesearch.Filter.FilterRequest` (`RL.ssStep`): questions that do not pass the gate never
     -- reach the rule list or its cache.
     if ssGate (nat! qt) then rlQuery s ⟨host, 2 * nat! qt⟩ client else (s, "none")
+  | ["st", "new", cap] =>
+    ({ s with st := [], stLru := [], stCap := nat! cap }, "ok")
+  | "st" :: "refresh" :: l :: ver :: rules =>
+    let rs := rules.map (parseRule (nat! ver))
+    ({ s with st := stSet s l ((stGet s l).step id (.refresh (engineOf rs))).1,
+              stLru := s.stLru.filter (fun p => p.1 != l) }, "ok")
+  | ["st", "q", l, client, host, sub] => stQuery s l ⟨host, nat! sub⟩ client
+  | ["st", "ssq", l, client, host, qt] =>
+    if ssGate (nat! qt) then stQuery s l ⟨host, 2 * nat! qt⟩ client else (s, "none")
   | ["hp", "new", rep] => ({ s with hp := HP.init, hpRep := parseRep rep, hpHits := [] }, "ok")
   | "hp" :: "refresh" :: hosts =>
     let s1 := (hpStep s (.store hosts)).1
